@@ -44,15 +44,24 @@ structure Defects where
       order is creation order; `true`: the reverse. The correspondence run drives the real code with
       sequential uids in either direction (`verif_hooks::uid`). -/
   uidOrderReversed : Bool
+  /-- `validate_authorisation_mutation` creates a group that the room does not have yet without asking for a room
+      admin (authorisation_service.rs:875-893: `need_room_admin` is only raised by rights, user admins, and users
+      the caller may not manage): a creator that does not list itself as admin can create a room with an EMPTY group;
+      every importer refuses that group row (`prepare_new_room` / `prepare_room_with_history`: its author must be
+      admin at its date). For an existing room the caller was checked to be admin beforehand, so only creations
+      are concerned. -/
+  groupCreationUnchecked : Bool
 deriving Repr, DecidableEq
 
 /-- what /repo does now. Fixed upstream (switch turned off here): newest-first replay (f7a29ff), raw rights on
-    reload (be6bedc), incomplete rooms dropped on reload (ee57a96). Still on: the new-group users rule (#33). -/
-def Defects.asImplemented : Defects := ⟨false, false, false, true, false⟩
+    reload (be6bedc), incomplete rooms dropped on reload (ee57a96). Still on: the new-group users rule (#33,
+    findings/C10-new-group-users-accept-room-admin.patch) and the unchecked creation of a group
+    (findings/C10-new-group-needs-room-admin.patch). -/
+def Defects.asImplemented : Defects := ⟨false, false, false, true, false, true⟩
 
 /-- /repo before the fixes that this check led to -/
-def Defects.beforeFixes : Defects := ⟨true, true, true, true, false⟩
-def Defects.none : Defects := ⟨false, false, false, false, false⟩
+def Defects.beforeFixes : Defects := ⟨true, true, true, true, false, true⟩
+def Defects.none : Defects := ⟨false, false, false, false, false, false⟩
 
 inductive MErr where
   | date | rejected | unknownRoom | unknownEntity | notBelongs | invalidNode | noRoom | dead | authExists
@@ -264,7 +273,9 @@ def addRightList (d : Int) : Auth → List (Ent × Bool × Bool) → Except Err 
     | .error e => .error e
 
 /-- `validate_authorisation_mutation`: returns the room with the group extended and `need_room_admin` -/
-def validateGroup (caller : Key) (d : Int) (room : Room) (g : GroupSpec) : Except MErr (Room × Bool) :=
+def validateGroup (df : Defects) (caller : Key) (d : Int) (room : Room) (g : GroupSpec) : Except MErr (Room × Bool) :=
+  -- the group is created by this mutation
+  let created := (room.getAuth g.gid).isNone
   let start : Except MErr (Room × Auth) :=
     match room.getAuth g.gid with
     | some a => .ok (room, a)
@@ -289,17 +300,18 @@ def validateGroup (caller : Key) (d : Int) (room : Room) (g : GroupSpec) : Excep
         | .ok a =>
           let needRoomAdmin := !g.rights.isEmpty || !g.userAdmins.isEmpty
           let needRoomAdmin := needRoomAdmin || (!g.users.isEmpty && !a.canAdminUsers caller d)
+          let needRoomAdmin := needRoomAdmin || (!df.groupCreationUnchecked && created)
           .ok (room.setAuth a, needRoomAdmin)
 
-def validateGroups (caller : Key) (d : Int) : Room → Bool → List GroupSpec → Except MErr (Room × Bool)
+def validateGroups (df : Defects) (caller : Key) (d : Int) : Room → Bool → List GroupSpec → Except MErr (Room × Bool)
   | r, need, [] => .ok (r, need)
   | r, need, g :: t =>
-    match validateGroup caller d r g with
+    match validateGroup df caller d r g with
     | .error e => .error e
-    | .ok (r', n) => validateGroups caller d r' (need || n) t
+    | .ok (r', n) => validateGroups df caller d r' (need || n) t
 
 /-- `validate_room_mutation`; `mem` is the in-memory definition of the room, if any -/
-def validate (mem : Option Room) (caller : Key) (m : MutSpec) : Except MErr Room :=
+def validate (df : Defects) (mem : Option Room) (caller : Key) (m : MutSpec) : Except MErr Room :=
   let start : Except MErr Room :=
     if m.isNew then .ok { id := m.rid, mdate := 0, admins := [], auths := [] }
     else
@@ -312,7 +324,7 @@ def validate (mem : Option Room) (caller : Key) (m : MutSpec) : Except MErr Room
     match liftErr (addAdminList m.date room m.admins) with
     | .error e => .error e
     | .ok room =>
-      match validateGroups caller m.date room (!m.admins.isEmpty) m.groups with
+      match validateGroups df caller m.date room (!m.admins.isEmpty) m.groups with
       | .error e => .error e
       | .ok (room, need) =>
         if need && !room.isAdmin caller m.date then .error .rejected else .ok room
@@ -563,7 +575,7 @@ def Site.setMem (s : Site) (r : Room) : Site :=
 
 /-- local room mutation on a live site: `MutationQuery::execute` (the rows named by id must exist),
     `validate_room_mutation`, write, second validation, install -/
-def Site.mutate (s : Site) (caller : Key) (n : Nat) (m : MutSpec) : Except MErr Site :=
+def Site.mutate (df : Defects) (s : Site) (caller : Key) (n : Nat) (m : MutSpec) : Except MErr Site :=
   if s.dead then .error .dead
   else
     let old := s.getStored m.rid
@@ -571,7 +583,7 @@ def Site.mutate (s : Site) (caller : Key) (n : Nat) (m : MutSpec) : Except MErr 
       m.groups.all fun g => g.isNew || (s.stored.any fun rr => rr.groups.any (·.gid = g.gid))
     if !rowsExist then .error .unknownEntity
     else
-      match validate (s.getMem m.rid) caller m with
+      match validate df (s.getMem m.rid) caller m with
       | .error e => .error e
       | .ok room =>
         let rr := storeMutation caller n (if m.isNew then none else old) m
